@@ -364,6 +364,10 @@ func checkC17(c CaseC17) (*vkit.Failure, vkit.Meta) {
 			}
 			ectx := context.WithValue(ctx, env17Key{}, e)
 			rec := &cb17{starts: map[string]int{}, ends: map[string]int{}}
+			// a handler registered globally must see every tool call too (one process runs one case at a time)
+			grec := &cb17{starts: map[string]int{}, ends: map[string]int{}}
+			callbacks.InitCallbackHandlers([]callbacks.Handler{grec.handler()})
+			defer callbacks.InitCallbackHandlers(nil)
 			done := make(chan struct{})
 			var got []*schema.Message
 			var rerr error
@@ -527,12 +531,15 @@ func checkC17(c CaseC17) (*vkit.Failure, vkit.Meta) {
 						wantCnt[cl.Tool]++
 					}
 				}
-				rec.mu.Lock()
-				defer rec.mu.Unlock()
-				for name, n := range wantCnt {
-					if rec.starts[name] != n || rec.ends[name] != n {
-						return &vkit.Failure{Kind: "tool-call-callbacks", Sig: "tool-call-callbacks", Msg: fmt.Sprintf("tool %s was called %d times; the handler saw %d starts and %d ends carrying its name", name, n, rec.starts[name], rec.ends[name])}
+				for which, rc := range map[string]*cb17{"passed with the call": rec, "registered globally": grec} {
+					rc.mu.Lock()
+					for name, n := range wantCnt {
+						if rc.starts[name] != n || rc.ends[name] != n {
+							rc.mu.Unlock()
+							return &vkit.Failure{Kind: "tool-call-callbacks", Sig: "tool-call-callbacks", Msg: fmt.Sprintf("tool %s was called %d times; the handler %s saw %d starts and %d ends carrying its name", name, n, which, rc.starts[name], rc.ends[name])}
+						}
 					}
+					rc.mu.Unlock()
 				}
 			}
 			return nil
@@ -605,6 +612,36 @@ func TestC13Tools(t *testing.T) {
 func TestC13ToolsReplay(t *testing.T) {
 	c17Rec = vkit.NewRecorder("C13")
 	vkit.Replay(t, "C13", func(c CaseC17) (*vkit.Failure, vkit.Meta) {
+		if len(c.Tools) == 0 {
+			return nil, vkit.Meta{}
+		}
+		return checkC17(c)
+	})
+}
+
+// ---- C10 (tool calls as execution units): handlers passed with the call and handlers registered globally
+// see every tool call exactly once at its start and once at its end ---------------------------------
+
+func genC10Tools(t *rapid.T) CaseC17 {
+	c := genC17(t)
+	c.Where = "graph"
+	if c.Paradigm == "" {
+		c.Paradigm = "invoke"
+	}
+	for i := range c.Tools {
+		c.Tools[i].Fault = ""
+	}
+	return c
+}
+
+func TestC10Tools(t *testing.T) {
+	c17Rec = vkit.NewRecorder("C10")
+	vkit.Prop(t, c17Rec, genC10Tools, checkC17)
+}
+
+func TestC10ToolsReplay(t *testing.T) {
+	c17Rec = vkit.NewRecorder("C10")
+	vkit.Replay(t, "C10", func(c CaseC17) (*vkit.Failure, vkit.Meta) {
 		if len(c.Tools) == 0 {
 			return nil, vkit.Meta{}
 		}
